@@ -8,12 +8,18 @@ configuration.
 """
 
 import hashlib
+import os
+import tempfile
+import zipfile
 import numpy as np
 from pathlib import Path
 
 from .utils import get_logger
 
 logger = get_logger("cache")
+
+# what np.load / zipfile raise on a truncated, empty or otherwise corrupt entry
+_UNREADABLE = (OSError, ValueError, EOFError, KeyError, zipfile.BadZipFile)
 
 
 class GreensFunctionCache:
@@ -85,10 +91,21 @@ class GreensFunctionCache:
         )
         path = self.cache_dir / f"{key}.npz"
         if path.exists():
-            logger.debug("Cache hit: %s", key[:12])
-            data = np.load(path)
-            grid = (data["X"], data["Y"], data["Z"])
-            return grid, data["conc"], data["flx"]
+            try:
+                with np.load(path) as data:
+                    grid = (data["X"], data["Y"], data["Z"])
+                    result = grid, data["conc"], data["flx"]
+            except _UNREADABLE as exc:
+                # truncated or corrupt entry (e.g. left by an interrupted run):
+                # drop it and treat the lookup as a miss
+                logger.warning("Ignoring unreadable cache entry %s: %s", path, exc)
+                try:
+                    path.unlink()
+                except OSError:
+                    pass
+            else:
+                logger.debug("Cache hit: %s", key[:12])
+                return result
         logger.debug("Cache miss: %s", key[:12])
         return None
 
@@ -112,7 +129,19 @@ class GreensFunctionCache:
         )
         path = self.cache_dir / f"{key}.npz"
         X, Y, Z = grid
-        np.savez(path, X=X, Y=Y, Z=Z, conc=conc, flx=flx)
+        # write to a temporary file in the same directory and rename it into
+        # place, so that an interrupted run never leaves a partial entry
+        fd, tmp = tempfile.mkstemp(dir=self.cache_dir, prefix=key, suffix=".tmp")
+        try:
+            with os.fdopen(fd, "wb") as f:
+                np.savez(f, X=X, Y=Y, Z=Z, conc=conc, flx=flx)
+            os.replace(tmp, path)
+        except BaseException:
+            try:
+                os.unlink(tmp)
+            except OSError:
+                pass
+            raise
         logger.debug("Cached: %s", key[:12])
 
     def clear(self):
@@ -121,4 +150,6 @@ class GreensFunctionCache:
         for f in self.cache_dir.glob("*.npz"):
             f.unlink()
             count += 1
+        for f in self.cache_dir.glob("*.tmp"):  # leftovers of interrupted runs
+            f.unlink()
         logger.info("Cleared %d cache entries", count)
